@@ -124,3 +124,595 @@ FAMILIES = {"ops": fam_ops}
 
 def family(name, tier, seed):
     return FAMILIES[name](tier, seed)
+
+
+# ----------------------------------------------------------------------------- helpers
+
+def sample(rnd, xs, n):
+    xs = list(xs)
+    if n >= len(xs):
+        return xs
+    return rnd.sample(xs, n)
+
+
+def finish(gs):
+    """drop ill-formed grammars, renumber"""
+    return [g for g in gs if well_formed(g)]
+
+
+# ----------------------------------------------------------------------------- F-fields
+
+def field_atoms():
+    return [
+        ("xA", lambda: Call("A", "x")),
+        ("xB", lambda: Call("B", "x")),
+        ("yA", lambda: Call("A", "y")),
+        ("xT", lambda: Call("T", "x")),
+        ("yc", lambda: Call("char", "y")),
+        ("xbA", lambda: Call("A", "x", boxed=True)),
+        ("A", lambda: Call("A")),
+        ("c", lambda: Lit("c")),
+    ]
+
+
+F_UNARY = [("opt", lambda x: Opt(x)), ("clo", lambda x: Clo(x)), ("clop", lambda x: Clo(x, plus=True))]
+
+
+def field_exprs(rnd, n2, n3):
+    atoms = field_atoms()
+    d1 = []
+    for on, of in F_UNARY:
+        for an, af in atoms:
+            d1.append((on + "_" + an, (lambda of=of, af=af: of(af()))))
+    for on, of in BINARY:
+        for (an, af), (bn, bf) in itertools.product(atoms, atoms):
+            d1.append((on + "_" + an + "_" + bn, (lambda of=of, af=af, bf=bf: of(af(), bf()))))
+
+    def deeper(prev, lower, n):
+        cur = []
+        for _ in range(n):
+            if rnd.random() < 0.4:
+                on, of = rnd.choice(F_UNARY)
+                an, af = rnd.choice(prev)
+                cur.append((on + "(" + an + ")", (lambda of=of, af=af: of(af()))))
+            else:
+                on, of = rnd.choice(BINARY)
+                an, af = rnd.choice(prev)
+                bn, bf = rnd.choice(prev + lower)
+                if rnd.random() < 0.5:
+                    (an, af), (bn, bf) = (bn, bf), (an, af)
+                cur.append((on + "(" + an + "," + bn + ")", (lambda of=of, af=af, bf=bf: of(af(), bf()))))
+        return cur
+
+    d2 = deeper(d1, atoms, n2)
+    d3 = deeper(d2, atoms + d1, n3)
+    return atoms, d1, d2, d3
+
+
+def fields_rules(body, root_kw=None):
+    kw = dict(export=True, no_skip_ws=True)
+    kw.update(root_kw or {})
+    return [
+        Rule("S", body, **kw),
+        Rule("A", Lit("a"), no_skip_ws=True),
+        Rule("B", Seq(Lit("b"), Opt(Lit("b"))), no_skip_ws=True),
+        Rule("T", Clo(Choice(Lit("a"), Lit("b")), plus=True), string=True, no_skip_ws=True),
+    ]
+
+
+def has_field(e):
+    import peg
+    return any(isinstance(x, Call) and x.field for x in peg.sub_exprs(e))
+
+
+def fam_fields(tier, seed):
+    rnd = random.Random(seed * 7919 + 2)
+    atoms, d1, d2, d3 = field_exprs(rnd, 600, 600) if tier == "quick" else field_exprs(rnd, 6000, 6000)
+    n1, n2, n3, maxlen = (70, 50, 30, 3) if tier == "quick" else (len(d1), 900, 600, 4)
+    chosen = atoms[:6] + sample(rnd, d1, n1) + sample(rnd, d2, n2) + sample(rnd, d3, n3)
+    # handwritten shapes the design names
+    hand = [
+        ("half_opt_then_again", lambda: Seq(Opt(Seq(Call("A", "x"), Lit("c"))), Call("A", "x"))),
+        ("two_types_two_arms", lambda: Choice(Call("A", "x"), Call("B", "x"))),
+        ("clo_multi_field_seq", lambda: Clo(Seq(Call("A", "x"), Call("B", "y")))),
+        ("arm_lacks_field", lambda: Choice(Seq(Call("A", "x"), Call("B", "y")), Call("B", "y"), Lit("c"))),
+        ("vec_of_enum", lambda: Clo(Choice(Call("A", "x"), Call("B", "x"), Call("char", "x")))),
+        ("opt_in_clo", lambda: Clo(Seq(Opt(Call("A", "x")), Call("B", "y")))),
+        ("same_field_thrice", lambda: Seq(Call("A", "x"), Opt(Call("A", "x")), Call("A", "x"))),
+        ("boxed_mixed", lambda: Choice(Call("A", "x", boxed=True), Seq(Call("B", "x"), Call("A", "x")))),
+        ("lookahead_then_field", lambda: Seq(Pos(Call("A")), Call("A", "x"), Neg(Call("A")))),
+        ("choice_backtrack_field", lambda: Choice(Seq(Call("A", "x"), Lit("c")), Seq(Call("A", "y"), Call("B", "x")))),
+    ]
+    out = []
+    seen = set()
+    for name, th in hand + chosen:
+        if name in seen:
+            continue
+        seen.add(name)
+        body = th()
+        if not has_field(body):
+            continue
+        g = Grammar("fld_%04d" % len(out), fields_rules(body), root="S", maxlen=maxlen, meta={"shape": name})
+        g.alpha = ["a", "b", "c"]
+        if well_formed(g):
+            out.append(g)
+    # override rules: simple, optional, enum, through a prefix
+    ov = [
+        ("ov_simple", Seq(Lit("c"), Call("A", "@"))),
+        ("ov_enum", Choice(Call("A", "@"), Call("B", "@"), Seq(Lit("c"), Call("T", "@")))),
+        ("ov_enum_boxed", Choice(Call("A", "@", boxed=True), Call("B", "@"))),
+        ("ov_opt", Opt(Call("A", "@"))),
+        ("ov_vec", Clo(Call("B", "@"))),
+        ("ov_char", Choice(Seq(Lit("c"), Call("char", "@")), Call("char", "@"))),
+        ("ov_string", Call("T", "@")),
+    ]
+    for name, body in ov:
+        rules = [Rule("S", Seq(Call("O", "r"), Opt(Call("O", "q"))), export=True, no_skip_ws=True),
+                 Rule("O", body, no_skip_ws=True)] + fields_rules(Lit("a"))[1:]
+        g = Grammar("fld_%04d" % len(out), rules, root="S", maxlen=maxlen, meta={"shape": name})
+        g.alpha = ["a", "b", "c"]
+        if well_formed(g):
+            out.append(g)
+    return out
+
+
+# ----------------------------------------------------------------------------- F-ws
+
+def fam_ws(tier, seed):
+    rnd = random.Random(seed * 7919 + 3)
+    maxlen = 4 if tier == "quick" else 5
+    shapes = []
+
+    def mk(name, rules, alpha=("a", "b", " ", "\n", "\x0b")):
+        shapes.append((name, rules, list(alpha)))
+
+    tok = lambda: Lit("a")  # noqa: E731
+    # N: non-skipping callee, K: skipping callee
+    callee = [Rule("N", Seq(Lit("a"), Lit("b")), no_skip_ws=True), Rule("K", Seq(Lit("a"), Lit("b")))]
+    bodies = [
+        ("lit_lit", Seq(Lit("a"), Lit("b"))),
+        ("lit_eoi", Seq(Lit("a"), Eoi())),
+        ("str_eoi", Seq(Lit("ab"), Eoi())),
+        ("range_range", Seq(Range("a", "b"), Range("a", "b"))),
+        ("callN", Seq(Call("N", "n"), Lit("a"))),
+        ("callK", Seq(Call("K", "k"), Lit("a"))),
+        ("incN", Seq(Inc("N"), Lit("a"))),
+        ("incK", Seq(Inc("K"), Lit("a"))),
+        ("opt_back", Seq(Opt(Seq(Lit("a"), Lit("b"))), Lit("a"), Eoi())),
+        ("clo", Seq(Clo(Lit("a")), Lit("b"))),
+        ("neg", Seq(Neg(Lit("b")), Call("char", "c"))),
+        ("pos", Seq(Pos(Lit("a")), Lit("a"), Lit("b"))),
+        ("char_field", Seq(Call("char", "c"), Call("char", "d"))),
+        ("string_rule", Seq(Call("T", "t"), Lit("b"))),
+        ("stringK_rule", Seq(Call("U", "t"), Eoi())),
+        ("charclass", Seq(Call("C", "c"), Call("C", "d"))),
+        ("ci", Seq(Lit("A", ci=True), Lit("ab", ci=True))),
+        ("explicit_ws", Seq(Lit("a"), Call("Whitespace"), Lit("b"))),
+        ("empty_lit", Seq(Lit(""), Lit("a"))),
+        ("choice_ws", Choice(Seq(Lit("a"), Lit("a")), Seq(Lit("a"), Lit("b")))),
+        ("eoi_only", Eoi()),
+    ]
+    extra = [Rule("T", Clo(Range("a", "b"), plus=True), string=True, no_skip_ws=True),
+             Rule("U", Clo(Range("a", "b"), plus=True), string=True),
+             CharRule("C", [("range", "a", "b")])]
+    for bn, body in bodies:
+        for skip in (True, False):
+            mk("%s_%s" % (bn, "skip" if skip else "noskip"),
+               [Rule("S", body, export=True, position=True, no_skip_ws=not skip)] + callee + extra)
+    # grammar-defined Whitespace (with comments): shadows the built-in
+    wsrule = Rule("Whitespace", Clo(Choice(Lit(" "), Seq(Lit("#"), Clo(Seq(Neg(Lit("\n")), Call("char"))), Lit("\n")))),
+                  no_skip_ws=True)
+    for bn, body in bodies[:12]:
+        if bn in ("explicit_ws",):
+            continue
+        mk("userws_" + bn, [Rule("S", body, export=True, position=True)] + callee + extra + [wsrule],
+           alpha=("a", "b", " ", "#", "\n"))
+    # a Whitespace rule that can fail: one or more dots
+    dots = Rule("Whitespace", Clo(Lit("."), plus=True), no_skip_ws=True)
+    for bn, body in bodies[:4]:
+        mk("dotws_" + bn, [Rule("S", body, export=True, position=True)] + callee + extra + [dots],
+           alpha=("a", "b", ".", " "))
+    # near misses
+    for bn, body in bodies[:3]:
+        mk("nbsp_" + bn, [Rule("S", body, export=True, position=True)] + callee + extra,
+           alpha=("a", "b", " ", "\t", "\r"))
+        mk("ff_" + bn, [Rule("S", body, export=True, position=True)] + callee + extra,
+           alpha=("a", "b", "\x0c", " "))
+    if tier == "quick":
+        keep = sample(rnd, shapes, 60)
+    else:
+        keep = shapes
+    out = []
+    for name, rules, alpha in keep:
+        g = Grammar("ws_%04d" % len(out), rules, root="S", maxlen=maxlen if len(alpha) <= 4 else maxlen - 1 + (tier != "quick"),
+                    meta={"shape": name})
+        g.alpha = alpha
+        g.maxlen = maxlen if len(alpha) <= 4 else (3 if tier == "quick" else 4)
+        if well_formed(g):
+            out.append(g)
+    return out
+
+
+# ----------------------------------------------------------------------------- F-memo
+
+def memo_bases():
+    """(name, rules, alpha, memoizable rule names)"""
+    out = []
+    out.append(("shared_prefix",
+                [Rule("S", Choice(Seq(Call("E", "e"), Lit("x")), Seq(Call("E", "e"), Lit("y")), Call("E", "e")),
+                      export=True, no_skip_ws=True),
+                 Rule("E", Choice(Seq(Lit("a"), Call("E", "n", boxed=True), Lit("b")), Lit("a")), no_skip_ws=True)],
+                ["a", "b", "x", "y"], ["S", "E"]))
+    out.append(("failing_prefix",
+                [Rule("S", Choice(Seq(Call("E", "e"), Lit("x")), Seq(Call("E", "e"), Lit("y")), Lit("b")),
+                      export=True, no_skip_ws=True),
+                 Rule("E", Seq(Lit("a"), Call("F", "f"), Lit("a")), no_skip_ws=True),
+                 Rule("F", Clo(Lit("b")), string=True, no_skip_ws=True)],
+                ["a", "b", "x"], ["S", "E", "F"]))
+    out.append(("nested_exp",
+                [Rule("S", Seq(Call("E", "e"), Eoi()), export=True, no_skip_ws=True),
+                 Rule("E", Choice(Seq(Lit("a"), Call("E", "l", boxed=True), Lit("b")),
+                                  Seq(Lit("a"), Call("E", "l", boxed=True), Lit("c")),
+                                  Seq()), no_skip_ws=True)],
+                ["a", "b", "c"], ["S", "E"]))
+    out.append(("lookahead_reuse",
+                [Rule("S", Seq(Pos(Seq(Call("T"), Lit("x"))), Call("T", "t"), Opt(Lit("x"))), export=True, no_skip_ws=True),
+                 Rule("T", Clo(Choice(Lit("a"), Lit("b")), plus=True), string=True, no_skip_ws=True)],
+                ["a", "b", "x"], ["S", "T"]))
+    out.append(("ws_memo",
+                [Rule("S", Choice(Seq(Call("W", "w"), Lit("x")), Seq(Call("W", "w"), Call("W", "w"))), export=True),
+                 Rule("W", Seq(Lit("a"), Opt(Lit("b"))), position=True)],
+                ["a", "b", " ", "x"], ["S", "W"]))
+    out.append(("three_level",
+                [Rule("S", Choice(Seq(Call("P", "p"), Lit("x")), Seq(Call("P", "p"), Lit("y"))), export=True, no_skip_ws=True),
+                 Rule("P", Choice(Seq(Call("Q", "q"), Lit("a")), Call("Q", "q")), no_skip_ws=True),
+                 Rule("Q", Choice(Seq(Lit("a"), Lit("a")), Lit("a")), no_skip_ws=True)],
+                ["a", "x", "y"], ["S", "P", "Q"]))
+    out.append(("memo_in_closure",
+                [Rule("S", Seq(Clo(Choice(Seq(Call("I", "i"), Lit("x")), Seq(Call("I", "i"), Lit("y")))), Eoi()),
+                      export=True, no_skip_ws=True),
+                 Rule("I", Clo(Lit("a"), plus=True), string=True, no_skip_ws=True)],
+                ["a", "x", "y"], ["S", "I"]))
+    out.append(("override_memo",
+                [Rule("S", Choice(Seq(Call("O", "o"), Lit("x")), Call("O", "o")), export=True, no_skip_ws=True),
+                 Rule("O", Choice(Call("A", "@"), Call("B", "@")), no_skip_ws=True),
+                 Rule("A", Seq(Lit("a"), Lit("a")), no_skip_ws=True),
+                 Rule("B", Lit("a"), no_skip_ws=True)],
+                ["a", "x", "b"], ["S", "O", "A", "B"]))
+    return out
+
+
+def fam_memo(tier, seed):
+    rnd = random.Random(seed * 7919 + 4)
+    maxlen = 4 if tier == "quick" else 5
+    out = []
+    for name, rules, alpha, memoizable in memo_bases():
+        subsets = []
+        for k in range(len(memoizable) + 1):
+            subsets += list(itertools.combinations(memoizable, k))
+        if tier == "quick" and len(subsets) > 8:
+            subsets = [subsets[0], subsets[-1]] + sample(rnd, subsets[1:-1], 6)
+        for sub in subsets:
+            import copy
+            rs = copy.deepcopy(rules)
+            for r in rs:
+                r.memoize = r.name in sub
+            g = Grammar("memo_%04d" % len(out), rs, root="S", maxlen=maxlen,
+                        meta={"shape": name + "/" + "+".join(sub), "base": name, "memo": list(sub)})
+            g.alpha = alpha
+            if name == "nested_exp":
+                g.extra = [list("a" * 7), list("a" * 6 + "b")] if tier == "quick" else [list("a" * 10), list("a" * 9 + "c")]
+            if well_formed(g):
+                out.append(g)
+    return out
+
+
+# ----------------------------------------------------------------------------- F-lr
+
+def lr_bases():
+    out = []
+    out.append(("direct", [Rule("A", Choice(Seq(Call("A", "l", boxed=True), Lit("x")), Lit("b")),
+                                export=True, no_skip_ws=True, leftrec=True)], "A", ["b", "x", "y"], True))
+    out.append(("direct_position", [Rule("A", Choice(Seq(Call("A", "l", boxed=True), Lit("x")), Lit("b")),
+                                         export=True, no_skip_ws=True, leftrec=True, position=True)], "A",
+                ["b", "x", "y"], True))
+    out.append(("two_ops", [Rule("E", Choice(Seq(Call("E", "l", boxed=True), Lit("+"), Call("N", "r")),
+                                            Seq(Call("E", "l", boxed=True), Lit("-"), Call("N", "r")),
+                                            Call("N", "r")), export=True, no_skip_ws=True, leftrec=True),
+                            Rule("N", Lit("n"), no_skip_ws=True)], "E", ["n", "+", "-"], True))
+    out.append(("base_first", [Rule("A", Choice(Lit("b"), Seq(Call("A", "l", boxed=True), Lit("x"))),
+                                    export=True, no_skip_ws=True, leftrec=True)], "A", ["b", "x"], False))
+    out.append(("wrapped", [Rule("S", Seq(Call("A", "a"), Eoi()), export=True, no_skip_ws=True),
+                            Rule("A", Choice(Seq(Call("A", "l", boxed=True), Lit("x")), Lit("b")),
+                                 no_skip_ws=True, leftrec=True)], "S", ["b", "x"], True))
+    out.append(("indirect", [Rule("E", Choice(Call("P", "@"), Call("N", "@")), export=False, no_skip_ws=True, leftrec=True),
+                             Rule("P", Seq(Call("E", "l", boxed=True), Lit("+"), Call("N", "r")), no_skip_ws=True),
+                             Rule("N", Lit("n"), no_skip_ws=True),
+                             Rule("S", Call("E", "e"), export=True, no_skip_ws=True)], "S", ["n", "+", "x"], True))
+    out.append(("skipping", [Rule("E", Choice(Seq(Call("E", "l", boxed=True), Lit("+"), Call("N", "r")), Call("N", "r")),
+                                  export=True, leftrec=True, position=True),
+                             Rule("N", Lit("n"), position=True)], "E", ["n", "+", " "], True))
+    out.append(("under_lookahead", [Rule("S", Seq(Pos(Seq(Call("A"), Lit("y"))), Call("A", "a"), Lit("y")),
+                                         export=True, no_skip_ws=True),
+                                    Rule("A", Choice(Seq(Call("A", "l", boxed=True), Lit("x")), Lit("b")),
+                                         no_skip_ws=True, leftrec=True)], "S", ["b", "x", "y"], True))
+    out.append(("string_lr", [Rule("S", Seq(Call("L", "l"), Opt(Lit("!"))), export=True, no_skip_ws=True),
+                              Rule("L", Choice(Seq(Call("L"), Lit("a")), Lit("b")), no_skip_ws=True, leftrec=True,
+                                   string=True)], "S", ["a", "b", "!"], True))
+    out.append(("two_levels", [Rule("E", Choice(Seq(Call("E", "l", boxed=True), Lit("+"), Call("T", "r")), Call("T", "r")),
+                                    export=True, no_skip_ws=True, leftrec=True),
+                               Rule("T", Choice(Seq(Call("T", "l", boxed=True), Lit("*"), Call("N", "r")), Call("N", "r")),
+                                    no_skip_ws=True, leftrec=True),
+                               Rule("N", Lit("n"), no_skip_ws=True)], "E", ["n", "+", "*"], True))
+    out.append(("growth_stops_midway", [Rule("A", Choice(Seq(Call("A", "l", boxed=True), Lit("x"), Lit("y")), Lit("b")),
+                                             export=True, no_skip_ws=True, leftrec=True)], "A", ["b", "x", "y"], True))
+    out.append(("neg_guard", [Rule("A", Choice(Seq(Call("A", "l", boxed=True), Lit("x")), Seq(Neg(Call("A")), Lit("b"))),
+                                   export=True, no_skip_ws=True, leftrec=True)], "A", ["b", "x"], True))
+    return out
+
+
+def fam_lr(tier, seed):
+    maxlen = 4 if tier == "quick" else 6
+    out = []
+    for name, rules, root, alpha, lrfirst in lr_bases():
+        g = Grammar("lr_%04d" % len(out), rules, root=root, maxlen=maxlen if len(alpha) <= 3 else maxlen - 1,
+                    meta={"shape": name, "lrfirst": lrfirst})
+        g.alpha = alpha
+        if well_formed(g):
+            out.append(g)
+    return out
+
+
+# ----------------------------------------------------------------------------- F-pos
+
+def fam_pos(tier, seed):
+    rnd = random.Random(seed * 7919 + 5)
+    maxlen = 3 if tier == "quick" else 4
+    bases = []
+    bases.append(("struct_nest", lambda: [
+        Rule("S", Seq(Call("P", "p"), Clo(Call("Q", "q")), Opt(Call("T", "t"))), export=True),
+        Rule("P", Seq(Lit("a"), Opt(Call("Q", "q")))),
+        Rule("Q", Lit("b")),
+        Rule("T", Clo(Lit("é"), plus=True), string=True, no_skip_ws=True)], ["S", "P", "Q", "T"], ["a", "b", "é", " "]))
+    bases.append(("enum_override", lambda: [
+        Rule("S", Seq(Call("O", "o"), Call("O", "o2")), export=True),
+        Rule("O", Choice(Call("X", "@"), Call("Y", "@"))),
+        Rule("X", Seq(Lit("a"), Opt(Lit("道")))),
+        Rule("Y", Lit("b"))], ["S", "XYO"], ["a", "b", "道", " "]))
+    bases.append(("noskip_inner", lambda: [
+        Rule("S", Seq(Call("N", "n"), Call("N", "m")), export=True),
+        Rule("N", Seq(Lit("a"), Clo(Lit(" ")), Opt(Lit("b"))), no_skip_ws=True)], ["S", "N"], ["a", "b", " "]))
+    out = []
+    for name, mk, marks, alpha in bases:
+        subsets = []
+        for k in range(len(marks) + 1):
+            subsets += list(itertools.combinations(marks, k))
+        for sub in subsets:
+            rules = mk()
+            flat = set()
+            for m in sub:
+                flat |= set(m) if len(m) > 1 and m.isupper() and all(rules_has(rules, c) for c in m) else {m}
+            for r in rules:
+                r.position = r.name in flat
+            # an enum override may only be @position if all its variants are
+            g = Grammar("pos_%04d" % len(out), rules, root="S", maxlen=maxlen,
+                        meta={"shape": name + "/" + "+".join(sorted(flat))})
+            g.alpha = alpha
+            if well_formed(g):
+                out.append(g)
+    # memoized and left-recursive replays must report the same ranges
+    out.append(Grammar("pos_%04d" % len(out), [
+        Rule("S", Choice(Seq(Call("W", "w"), Lit("x")), Seq(Call("W", "w"), Call("W", "v"))), export=True, position=True),
+        Rule("W", Seq(Lit("a"), Opt(Lit("é"))), position=True, memoize=True)], root="S", maxlen=maxlen,
+        alpha=["a", "é", " ", "x"], meta={"shape": "memo_replay"}))
+    out.append(Grammar("pos_%04d" % len(out), [
+        Rule("E", Choice(Seq(Call("E", "l", boxed=True), Lit("+"), Call("N", "r")), Call("N", "r")), export=True,
+             position=True, leftrec=True),
+        Rule("N", Lit("n"), position=True)], root="E", maxlen=maxlen + 1,
+        alpha=["n", "+", " "], meta={"shape": "leftrec_replay"}))
+    return out
+
+
+def rules_has(rules, name):
+    return any(r.name == name for r in rules)
+
+
+# ----------------------------------------------------------------------------- F-uni
+
+def fam_uni(tier, seed):
+    rnd = random.Random(seed * 7919 + 6)
+    maxlen = 3 if tier == "quick" else 4
+    E9 = "é"   # bytes C3 A9
+    DAO = "道"  # bytes E9 81 93: the lead byte equals the code point of é
+    EMO = "\U0001F600"
+    bodies = [
+        ("lit_e9", Lit(E9)), ("lit_dao", Lit(DAO)), ("lit_emo", Lit(EMO)),
+        ("str_mixed", Lit("a" + E9)), ("str_dao_a", Lit(DAO + "a")),
+        ("range_ascii", Range("a", "z")), ("range_latin1", Range("à", "ÿ")),
+        ("range_cross", Range("a", E9)), ("range_cjk", Range("一", "鿿")),
+        ("range_astral", Range("\U00010000", "\U0010FFFF")),
+        ("range_7f_80", Range("\x7f", "\x80")), ("range_7ff_800", Range("߿", "ࠀ")),
+        ("range_ffff_10000", Range("￿", "\U00010000")),
+        ("ci_a", Lit("A", ci=True)), ("ci_str", Lit("aA", ci=True)),
+        ("any", Call("char", "c")), ("any_any", Seq(Call("char", "c"), Call("char", "d"))),
+        ("class", Call("C", "c")), ("class_u", Call("U", "c")),
+        ("not_e9_any", Seq(Neg(Lit(E9)), Call("char", "c"))),
+        ("string_any", Call("T", "t")),
+        ("clo_range", Clo(Range("a", E9))),
+        ("ext_two", Call("X2", "x")),
+    ]
+    alpha = ["a", "A", E9, DAO, EMO]
+    out = []
+    for name, body in bodies:
+        rules = [Rule("S", Seq(body, Opt(Call("T", "rest"))), export=True, position=True, no_skip_ws=True),
+                 Rule("T", Clo(Call("char"), plus=True), string=True, position=True, no_skip_ws=True),
+                 CharRule("C", [("lit", E9), ("range", "a", "b")]),
+                 CharRule("U", [("range", "\u0080", "\U0010FFFF"), ("ref", "C")]),
+                 ExternRule("X2", {"o": "two", "path": "verif_common::oracles::ext_two", "nullable": False})]
+        g = Grammar("uni_%04d" % len(out), rules, root="S", maxlen=maxlen, meta={"shape": name})
+        g.alpha = alpha
+        g.extra = [[rnd.choice(alpha + ["\x7f", "\x80", "߿", "ࠀ", "￿", "\U00010000", "\U0010FFFF"])
+                    for _ in range(rnd.randint(4, 7))] for _ in range(10 if tier == "quick" else 60)]
+        if well_formed(g):
+            out.append(g)
+    return out
+
+
+# ----------------------------------------------------------------------------- F-inc
+
+def inline(g):
+    """the grammar with every >R replaced by the parenthesised body of R"""
+    import copy
+    g2 = copy.deepcopy(g)
+
+    def rw(e, depth=0):
+        if isinstance(e, Inc):
+            return rw(copy.deepcopy(g.rule(e.rule).body), depth + 1)
+        if isinstance(e, Seq):
+            e.parts = [rw(p, depth) for p in e.parts]
+        elif isinstance(e, Choice):
+            e.alts = [rw(a, depth) for a in e.alts]
+        elif isinstance(e, (Opt, Clo, Neg, Pos)):
+            e.b = rw(e.b, depth)
+        return e
+
+    for r in g2.rules:
+        if r.kind == "rule":
+            r.body = rw(r.body)
+    return g2
+
+
+def fam_inc(tier, seed):
+    maxlen = 4 if tier == "quick" else 5
+    inc_rules = lambda: [  # noqa: E731
+        Rule("I1", Seq(Call("A", "x"), Lit(","), Call("A", "y")), string=False, position=True, memoize=True,
+             checks=[]),
+        Rule("I2", Choice(Seq(Lit("("), Call("A", "x"), Lit(")")), Call("B", "x")), no_skip_ws=True),
+        Rule("I3", Seq(Inc("I2"), Opt(Inc("I2")))),
+        Rule("I4", Call("A", "@")),
+        Rule("I5", Seq(Lit("a"), Opt(Lit("b"))), memoize=True),
+        Rule("O", Seq(Lit("("), Inc("I4"), Lit(")"))),
+        Rule("A", Lit("a")), Rule("B", Lit("b"), no_skip_ws=True)]
+    sites = [
+        ("plain", Seq(Inc("I1"), Lit("b"))),
+        ("in_opt", Seq(Opt(Inc("I1")), Call("B", "z"))),
+        ("in_clo", Clo(Inc("I2"))),
+        ("in_choice", Choice(Seq(Inc("I2"), Lit(",")), Inc("I2"))),
+        ("nested", Seq(Inc("I3"), Eoi())),
+        ("twice", Seq(Inc("I2"), Inc("I2"))),
+        ("override", Seq(Call("O", "o"), Opt(Call("O", "p")))),
+        ("in_neg", Seq(Neg(Seq(Inc("I5"), Lit(","))), Inc("I2"))),
+        ("in_pos", Seq(Pos(Inc("I5")), Call("A", "x"))),
+    ]
+    out = []
+    for name, body in sites:
+        for skip in (True, False):
+            g = Grammar("inc_%04d" % len(out), [Rule("S", body, export=True, no_skip_ws=not skip, position=True)] + inc_rules(),
+                        root="S", maxlen=maxlen, meta={"shape": "%s_%s" % (name, "skip" if skip else "noskip"), "twin": "orig"})
+            g.alpha = ["a", "b", "(", ")", ",", " "] if skip else ["a", "b", "(", ")", ","]
+            g.maxlen = 3 if tier == "quick" else 4
+            if not well_formed(g):
+                continue
+            t = inline(g)
+            t.id = "inc_%04d" % (len(out) + 1)
+            t.meta = dict(g.meta)
+            t.meta["twin"] = "inlined"
+            t.meta["twin_of"] = g.id
+            out += [g, t]
+    return out
+
+
+# ----------------------------------------------------------------------------- F-user
+
+def fam_user(tier, seed):
+    maxlen = 3 if tier == "quick" else 4
+    P = "verif_common::oracles::"
+    ext = {
+        "D": ExternRule("D", {"o": "digits", "path": P + "ext_digits", "nullable": False}),
+        "X2": ExternRule("X2", {"o": "two", "path": P + "ext_two", "nullable": False}),
+        "Z": ExternRule("Z", {"o": "zero", "path": P + "ext_zero", "nullable": True}),
+        "F": ExternRule("F", {"o": "fail", "path": P + "ext_fail", "nullable": False}),
+        "UP": ExternRule("UP", {"o": "upper", "path": P + "ext_upper", "ret": "char", "nullable": False}),
+    }
+    always = {"o": "always", "path": P + "chk_always", "name": P + "chk_always"}
+    never = {"o": "never", "path": P + "chk_never", "name": P + "chk_never"}
+    even = {"o": "str_even", "path": P + "chk_str_even", "name": P + "chk_str_even"}
+    shapes = []
+
+    def mk(name, rules, alpha, user_rs=None):
+        shapes.append((name, rules, alpha, user_rs))
+
+    A = ["a", "1", "B", " "]
+    mk("ext_field", [Rule("S", Seq(Call("D", "d"), Opt(Lit("a"))), export=True), ext["D"]], A)
+    mk("ext_noskip", [Rule("S", Seq(Lit("a"), Call("D", "d")), export=True, no_skip_ws=True), ext["D"]], A)
+    mk("ext_in_clo", [Rule("S", Seq(Clo(Seq(Call("D", "d"), Lit("a"))), Eoi()), export=True), ext["D"]], A)
+    mk("ext_in_choice", [Rule("S", Choice(Seq(Call("D", "d"), Lit("a")), Seq(Call("D", "d"), Lit("B")), Call("UP", "u")), export=True),
+                         ext["D"], ext["UP"]], A)
+    mk("ext_in_neg", [Rule("S", Seq(Neg(Call("D")), Call("char", "c")), export=True, no_skip_ws=True), ext["D"]], A)
+    mk("ext_two", [Rule("S", Seq(Call("X2", "x"), Opt(Call("X2", "y"))), export=True, no_skip_ws=True), ext["X2"]],
+       ["a", "é", "道"])
+    mk("ext_zero_fail", [Rule("S", Choice(Seq(Call("F", "f"), Lit("a")), Seq(Call("Z", "z"), Lit("a"))), export=True, no_skip_ws=True),
+                         ext["Z"], ext["F"]], ["a", "b"])
+    mk("ext_char", [Rule("S", Seq(Call("UP", "u"), Clo(Call("UP", "v"))), export=True), ext["UP"]], A)
+    mk("ext_memo", [Rule("S", Choice(Seq(Call("M", "m"), Lit("a")), Seq(Call("M", "m"), Lit("B"))), export=True),
+                    Rule("M", Call("D", "d"), memoize=True), ext["D"]], A)
+    # checks on @string rules
+    mk("chk_string_even", [Rule("S", Seq(Call("T", "t"), Opt(Lit("!"))), export=True, no_skip_ws=True),
+                           Rule("T", Clo(Lit("a"), plus=True), string=True, no_skip_ws=True, checks=[even])],
+       ["a", "!", "b"])
+    mk("chk_backtrack", [Rule("S", Choice(Seq(Call("T", "t"), Lit("!")), Seq(Call("U", "u"), Opt(Lit("!")))), export=True, no_skip_ws=True),
+                         Rule("T", Clo(Lit("a"), plus=True), string=True, no_skip_ws=True, checks=[even]),
+                         Rule("U", Clo(Lit("a"), plus=True), string=True, no_skip_ws=True, checks=[always])],
+       ["a", "!", "b"])
+    mk("chk_never_always", [Rule("S", Choice(Call("N", "n"), Call("Y", "y")), export=True, no_skip_ws=True),
+                            Rule("N", Lit("a"), no_skip_ws=True, checks=[always, never]),
+                            Rule("Y", Lit("a"), no_skip_ws=True, checks=[always, always])], ["a", "b"])
+    # checks on struct / enum / override / position rules: generated per grammar
+    mk("chk_struct_len", [Rule("S", Seq(Call("L", "l"), Clo(Lit("a"))), export=True, no_skip_ws=True),
+                          Rule("L", Clo(Call("A", "xs")), no_skip_ws=True,
+                               checks=[{"o": "len_le", "f": "xs", "n": 2, "path": "@chk_len", "name": "@chk_len",
+                                        "rust": "pub fn chk_len(v: &L) -> bool { logged(\"chk_len\", v, v.xs.len() <= 2) }"}]),
+                          Rule("A", Lit("a"), no_skip_ws=True)], ["a", "b"])
+    mk("chk_struct_some", [Rule("S", Choice(Call("L", "l"), Call("char", "c")), export=True, no_skip_ws=True),
+                           Rule("L", Seq(Lit("a"), Opt(Call("B", "b"))), no_skip_ws=True,
+                                checks=[{"o": "is_some", "f": "b", "path": "@chk_some", "name": "@chk_some",
+                                         "rust": "pub fn chk_some(v: &L) -> bool { logged(\"chk_some\", v, v.b.is_some()) }"}]),
+                           Rule("B", Lit("b"), no_skip_ws=True)], ["a", "b"])
+    mk("chk_enum_variant", [Rule("S", Seq(Call("O", "o"), Opt(Call("O", "p"))), export=True, no_skip_ws=True),
+                            Rule("O", Choice(Call("A", "@"), Call("B", "@")), no_skip_ws=True,
+                                 checks=[{"o": "variant_is", "variant": "B", "path": "@chk_var", "name": "@chk_var",
+                                          "rust": "pub fn chk_var(v: &O) -> bool { logged(\"chk_var\", v, matches!(v, O::B(_))) }"}]),
+                            Rule("A", Lit("a"), no_skip_ws=True), Rule("B", Lit("b"), no_skip_ws=True)], ["a", "b"])
+    mk("chk_position_span", [Rule("S", Seq(Call("W", "w"), Clo(Call("char"))), export=True),
+                             Rule("W", Clo(Lit("a"), plus=True), position=True,
+                                  checks=[{"o": "span_le", "n": 2, "path": "@chk_span", "name": "@chk_span",
+                                           "rust": "pub fn chk_span(v: &W) -> bool { logged(\"chk_span\", v, v.position.end - v.position.start <= 2) }"}])],
+       ["a", " ", "b"])
+    # @char rule checks see the next character
+    mk("chk_char", [Rule("S", Seq(Call("C", "c"), Opt(Call("C", "d"))), export=True),
+                    CharRule("C", [("range", "a", "z"), ("lit", "1")],
+                             checks=[{"o": "char_not", "c": "b", "path": "@cchk_notb", "name": "@cchk_notb",
+                                      "rust": "pub fn cchk_notb(c: char) -> bool { logged(\"cchk_notb\", &c, c != 'b') }"}])],
+       ["a", "b", "1", " "])
+    out = []
+    for name, rules, alpha, _ in shapes:
+        gid = "user_%04d" % len(out)
+        user_rs = []
+        import copy
+        rules = copy.deepcopy(rules)
+        for r in rules:
+            for c in getattr(r, "checks", []):
+                if c["path"].startswith("@"):
+                    fn = c["path"][1:]
+                    c["path"] = "crate::cases::g_%s::user::%s" % (gid, fn)
+                    c["name"] = c["path"]
+                    user_rs.append(c["rust"])
+        g = Grammar(gid, rules, maxlen=maxlen, meta={"shape": name, "user_rs": "\n".join(user_rs)})
+        g.alpha = alpha
+        if well_formed(g):
+            out.append(g)
+    return out
+
+
+FAMILIES.update({"fields": fam_fields, "ws": fam_ws, "memo": fam_memo, "lr": fam_lr, "pos": fam_pos,
+                 "uni": fam_uni, "inc": fam_inc, "user": fam_user})
